@@ -19,7 +19,7 @@ CLAIMS = {
  "C09": dict(level="proof", design="DESIGN.md §3 C09",
    technique="contract-based deductive verification: Verus on selection regions extracted mechanically from take()/take_all(); Kani on the extracted float clamp",
    text="Partial: for the regions Any / PreferSame / RequireSame (and, bounded, PreferDifferent) of take() and reduce_processors_until_under_quota, Verus proves for any number of regions and candidates: exactly `count` processors or nothing, every one a candidate, pairwise distinct, one region where required, quota cut is a prefix. The quota->count clamp is proved for every f64. Found and fixed: PreferSame over-selected.",
-   note="Everything before a region (candidate filtering, region ordering) is an unchecked precondition; rand/itertools contracts are assumed; the PreferDifferent arm is checked only at small concrete sizes over stand-ins (bounded); the RequireDifferent arm and take_all's maximality are not covered."),
+   note="Everything before a region (candidate filtering, region ordering) is an unchecked precondition; rand/itertools contracts are assumed; the PreferDifferent arm is checked only at small concrete sizes over stand-ins (bounded); take_all's selection is checked at small concrete sizes over stand-ins (bounded); the RequireDifferent arm of take(n) and candidate filtering are not covered."),
  "C10": dict(level="proof", design="DESIGN.md §3 C10",
    technique="contract-based deductive verification: Verus on CpuMask / BitPosition bodies and the pin loop region; Kani full-domain contract for BitPosition",
    text="Partial: the mask handed to sched_setaffinity holds exactly the ids of the processor set, for every id in u32 and every mask width (CpuMask::insert = set insertion, width never shrinks; id <-> (word, bit) round trip for every u32); and the pin status the library records after a pin (processor known iff the set is a single processor; memory region known iff ALL processors of the set share one region) is proved for the decision chain of pin_current_thread_to over stand-in observers, for any number of processors.",
